@@ -79,6 +79,7 @@ def exc_class(e):
         return f"{type(e).__name__}:{e.msg[:48]}"
     msg = re.sub(r"line:? \d+, col:? \d+( to line:? \d+, col:? \d+)?", "<pos>", msg)
     msg = re.sub(r"\d+", "N", msg)
+    msg = re.sub(r"Found expression (true|false) in", "Found expression <bool> in", msg)
     msg = re.sub(r"ExpressionManager\.\w+\(\)", "ExpressionManager.<op>()", msg)
     msg = re.sub(r"'[^']*'|\"[^\"]*\"", "'..'", msg)
     return f"{type(e).__name__}:{msg[:48].strip()}"
@@ -173,7 +174,7 @@ def write_anml(problem):
     return captured.get("map", {}), out
 
 
-def read_anml(text, env, explicit_env):
+def read_anml(text, env, explicit_env, timeout=None):
     from unified_planning.io import ANMLReader
 
     def do():
@@ -182,6 +183,8 @@ def read_anml(text, env, explicit_env):
         with default_environment(env):
             return ANMLReader().parse_problem_string(text, "reread")
 
+    if timeout:
+        return call_with_timeout(timeout, do)
     return call(do)
 
 
@@ -283,6 +286,106 @@ TAG_PRIORITY = ["empty-precondition", "nested-div", "nested-minus", "dup-effects
 def primary_tag(tags):
     """One tag per text (bounded set of mechanism strings): the first present in TAG_PRIORITY."""
     for t in TAG_PRIORITY:
+        if t in tags:
+            return t
+    return None
+
+
+# ---- per-call watchdog (pyparsing's infix_notation is exponential in the nesting depth of parentheses) -----------------------
+class CallTimeout(Exception):
+    pass
+
+
+def call_with_timeout(seconds, fn, *a, **kw):
+    """Like call(), but gives up after `seconds` of CPU time (main thread only). A timeout is never a verdict."""
+    import signal
+    import threading
+
+    if threading.current_thread() is not threading.main_thread():
+        return call(fn, *a, **kw)
+
+    def handler(signum, frame):
+        raise CallTimeout()
+
+    # CPU time of this process, not wall time: the outcome must not depend on how loaded the machine is
+    old = signal.signal(signal.SIGPROF, handler)
+    signal.setitimer(signal.ITIMER_PROF, seconds)
+    try:
+        return call(fn, *a, **kw)
+    finally:
+        signal.setitimer(signal.ITIMER_PROF, 0)
+        signal.signal(signal.SIGPROF, old)
+
+
+# ---- ANML: features of the written problem that key known writer/reader limitations ----------------------------------------------
+ANML_TAG_PRIORITY = [
+    "invalid-identifier",
+    "negative-bound",
+    "fractional-real-bound",
+    "half-bounded-real",
+    "quantified-effect-condition",
+    "negated-compound-effect-condition",
+    "iff-compound-operand",
+    "quantifier-first-operand",
+]
+
+
+def anml_problem_tags(problem, names):
+    import re
+    from unified_planning.model.operators import OperatorKind as OK
+
+    tags = set()
+    ident = re.compile(r"[A-Za-z_][A-Za-z0-9_]*\Z")
+    for item, n in names.items():
+        if hasattr(item, "name") and not (hasattr(item, "is_user_type") and not item.is_user_type()):
+            if not ident.match(n):
+                tags.add("invalid-identifier")
+    tps = [f.type for f in problem.fluents] + [p.type for f in problem.fluents for p in f.signature]
+    for t in tps:
+        if t.is_int_type() or t.is_real_type():
+            lb, ub = t.lower_bound, t.upper_bound
+            if (lb is not None and lb < 0) or (ub is not None and ub < 0):
+                tags.add("negative-bound")
+            if t.is_real_type():
+                if (lb is None) != (ub is None):
+                    tags.add("half-bounded-real")
+                if any(b is not None and b.denominator != 1 for b in (lb, ub)):
+                    tags.add("fractional-real-bound")
+    exprs = []
+    for a in problem.actions:
+        if hasattr(a, "preconditions"):
+            exprs += list(a.preconditions)
+            effs = list(a.effects)
+        else:
+            for cl in a.conditions.values():
+                exprs += list(cl)
+            effs = [e for el in a.effects.values() for e in el]
+        for e in effs:
+            exprs += [e.condition, e.value]
+            if e.condition.node_type in (OK.EXISTS, OK.FORALL):
+                tags.add("quantified-effect-condition")
+            c0 = e.condition
+            if c0.node_type == OK.NOT and c0.arg(0).args and c0.arg(0).node_type != OK.FLUENT_EXP:
+                tags.add("negated-compound-effect-condition")
+    exprs += list(problem.goals)
+    for gl in problem.timed_goals.values():
+        exprs += list(gl)
+    stack = [(e, False) for e in exprs]
+    while stack:
+        e, inq = stack.pop()
+        nt = e.node_type
+        q = nt in (OK.EXISTS, OK.FORALL)
+        if nt in (OK.AND, OK.OR, OK.IMPLIES) and e.args and e.arg(0).node_type in (OK.EXISTS, OK.FORALL):
+            tags.add("quantifier-first-operand")
+        if nt == OK.IFF and any(a.args and a.node_type != OK.FLUENT_EXP for a in e.args):
+            tags.add("iff-compound-operand")
+        for a in e.args:
+            stack.append((a, inq or q))
+    return sorted(tags)
+
+
+def anml_primary_tag(tags):
+    for t in ANML_TAG_PRIORITY:
         if t in tags:
             return t
     return None
